@@ -45,6 +45,34 @@ def search(res, tier, seed, deep=False):
                     if not (err <= 1e-7):
                         report("not-unit-equivariant:" + name, dict(debiaser=name, window_mode=mode, a=a, b=b, seed=seed), err,
                                "expressing the three series in another unit does not change the output by the same map")
+        # (a) anomalies of order one around zero in the base unit (degC near freezing, skewed day-to-day variability): a
+        #     goodness-of-fit decision or a clip that looks at raw magnitudes behaves differently there than at 273 K or 32 degF;
+        # (b) the non-default ECDF estimate from a histogram (kernel_density): its bins must move with the unit
+        near_zero = [("ISIMIP", "none", {}), ("ISIMIP", "days", {}), ("QuantileMapping", "none", {}), ("CDFt", "none", {}), ("ScaledDistributionMapping", "none", {})]
+        kd = [(n_, m_, dict(ecdf_method="kernel_density")) for n_, m_ in (("CDFt", "none"), ("QuantileDeltaMapping", "none"), ("ISIMIP", "none"), ("CDFt", "days"))]
+        if tier == "quick": near_zero = near_zero[:2] + [near_zero[2 + (seed + rnd) % 3]]; kd = [kd[(seed + rnd) % 4], kd[(seed + rnd + 1) % 4]]
+        for name, mode, over in near_zero + kd:
+            d = R.build(name, "tas", mode, r, **over)
+            rs = np.random.RandomState(r.randint(0, 10 ** 6))
+            nO, nH, nF = r.randint(730, 800), r.randint(730, 800), r.randint(730, 1100)
+            if over:
+                obs, hist, fut = R.series(rs, nO) - 273.15, R.series(rs, nH, "tas", 1.5, 1.3) - 273.15, R.series(rs, nF, "tas", 3.0, 1.1) - 273.15
+            else:
+                mk = lambda n, sh, sc: sh + 0.4 * np.sin(np.arange(n) * 2 * np.pi / 365.25) + sc * (rs.gamma(2.0, 0.6, n) - 1.2)
+                obs, hist, fut = mk(nO, 0.1, 1.0), mk(nH, 0.5, 1.3), mk(nF, 0.9, 1.2)
+            tO, tH, tF = R.times(nO, "1980-01-01"), R.times(nH, "1980-01-01"), R.times(nF, "2040-01-01")
+            try:
+                base = R.run(d, obs, hist, fut, tO, tH, tF)
+            except Exception as e:
+                report("exception:" + name, dict(debiaser=name, window_mode=mode, settings=str(over), seed=seed), repr(e)[:300], "apply_location raised"); continue
+            for (a, b) in ((1.0, 273.15), (1.8, 32.0)):
+                out = R.run(d, a * obs + b, a * hist + b, a * fut + b, tO, tH, tF)
+                want = a * base + b
+                err = float(np.max(np.abs(out - want))) / max(float(np.max(np.abs(want))), abs(a) * 10)
+                res.case(("c04-near-zero" if not over else "c04-kernel-density", name, mode, a))
+                if not (err <= 1e-7):
+                    report("not-unit-equivariant:%s:%s" % (name, "kernel_density" if over else "near-zero"), dict(debiaser=name, window_mode=mode, settings=str(over), base_unit="degC", a=a, b=b, seed=seed), err,
+                           "expressing the three series in another unit does not change the output by the same map")
         for name in ("LinearScaling", "DeltaChange"):
             d = R.build(name, "pr", "none")
             rs = np.random.RandomState(r.randint(0, 10 ** 6))
